@@ -225,6 +225,7 @@ def run(ctx: Ctx):
     run_loop_nan_batches(ctx)
     run_array_nan_batches(ctx)
     run_node_mix(ctx)
+    run_failing_sample(ctx)
 
 
 def run_nan_batches(ctx: Ctx):
@@ -501,3 +502,41 @@ def run_node_mix(ctx: Ctx):
             else:
                 continue
             break
+
+
+def run_failing_sample(ctx: Ctx):
+    """one sample of a batch makes a (non-vectorised) model raise: it comes back as NaN with an error record, and every OTHER sample has the value
+    it has alone, at its own position - serially and through an executor"""
+    from concurrent.futures import ThreadPoolExecutor
+    from amisc import Component, Variable
+    rng = ctx.rng
+
+    def model(inputs):
+        a, b = float(inputs['a']), float(inputs['b'])
+        if a == 4.0:
+            raise ValueError('model failure at a=4')
+        return {'r': 10.0 * a + b}
+    comp = Component(model, [Variable('a', domain=(0, 10)), Variable('b', domain=(0, 10))], [Variable('r')], name='failing', vectorized=False)
+    for n in range(ctx.pick(8, 60)):
+        shape = tuple(rng.randint(1, 3) for _ in range(rng.randint(1, 2)))
+        N = int(np.prod(shape))
+        a = np.array([float(rng.randint(0, 9)) for _ in range(N)]); b = np.array([float(rng.randint(0, 9)) / 2 for _ in range(N)])
+        if N >= 2:
+            a[rng.randrange(N - 1)] = 4.0           # a failing sample that is not the last one
+        case = {'failing_sample_batch': n, 'shape': shape, 'a': a.tolist(), 'b': b.tolist()}
+        ctx.case(case, nontrivial=N >= 2 and 4.0 in a, kind='batch-with-failing-sample')
+        want = np.where(a == 4.0, np.nan, 10.0 * a + b).reshape(shape)
+        for label in ('serial', 'thread pool'):
+            try:
+                if label == 'serial':
+                    out = comp.call_model({'a': a.reshape(shape), 'b': b.reshape(shape)})
+                else:
+                    with ThreadPoolExecutor(max_workers=2) as pool:
+                        out = comp.call_model({'a': a.reshape(shape), 'b': b.reshape(shape)}, executor=pool)
+            except Exception as e:
+                ctx.violate('C10:call_model-raises', f'{label}: {type(e).__name__}: {e}', case); continue
+            got = np.asarray(out['r'], dtype=float)
+            if got.shape != want.shape or not np.allclose(got, want, rtol=0, atol=0, equal_nan=True):
+                ctx.violate('C10:batch-vs-single', f'{label} call_model with a failing sample in the batch returns {got.tolist()}; sample by sample it is {want.tolist()}', case); break
+            if sorted(int(i) for i in (out.get('errors') or {})) != [i for i in range(N) if a[i] == 4.0]:
+                ctx.violate('C10:batch-vs-single', f'{label}: error records for samples {sorted(out.get("errors") or {})}, the failing samples are {[i for i in range(N) if a[i] == 4.0]}', case); break
